@@ -964,8 +964,8 @@ func famSesResp(t *testing.T, r *Rec) {
 		}
 	}
 	// JSONP: wrapper shape, digits of j, script-safe literal, round trip of newlines
-	js := []string{"0", "12", "7);alert(1);//", "1e3", "-5", "４２", "", "abc", "9]=1;x[0"}
-	payloads := []string{"plain", "quote\"s", "new\nline", "back\\nslash", "</script><script>alert(1)</script>", "amp&<>", "u2028:  u2029: ", "\x00\x1f", "é😀"}
+	js := []string{"0", "12", "7);alert(1);//", "1e3", "-5", "４２", "", "abc", "9]=1;x[0", "3"}
+	payloads := []string{"plain", "quote\"s", "new\nline", "back\\nslash", "</script><script>alert(1)</script>", "amp&<>", "u2028:  u2029: ", "\x00\x1f", "é😀", "backslash\\\nnewline"}
 	for ji, j := range js {
 		pl := payloads[ji%len(payloads)]
 		lines := []string{"ses cfg 25000 20000 1000 100000 default 1 0 - 0 -", "ses hs polling 4 0 " + strOr(hx([]byte(j)), "e"),
@@ -1019,7 +1019,11 @@ func famSesResp(t *testing.T, r *Rec) {
 			}
 		}
 		if got != pl {
-			r.Violate("C02", "C02/jsonp-unescape", fmt.Sprintf("message submitted through JSONP arrived as %q, want %q", got, pl), lines[:5])
+			sig := "C02/jsonp-unescape"
+			if strings.Contains(pl, "\\\n") {
+				sig += "/backslash-before-newline"
+			}
+			r.Violate("C02", sig, fmt.Sprintf("message submitted through JSONP arrived as %q, want %q", got, pl), lines[:5])
 		}
 	}
 }
